@@ -102,6 +102,17 @@ func genMapFamilies(g genCfg, c ContainerKind, level int, full bool) []*MapScen 
 			}
 		}
 	}
+	// F4c: a hole in a non-tail bucket of a chain is refilled by a new key while its neighbours are read
+	for _, del := range removeOps {
+		for _, ins := range []MIn{opStore, opLoS, opLaS, opLoC, opCSet} {
+			if level == 0 && del.Op != MDelete && ins.Op != MStore {
+				continue
+			}
+			for _, rd := range []MIn{on(opLoad, 1), on(opLoad, 2), on(opLoS, 1), on(opDelete, 1)} {
+				add(&MapScen{Rel: RelSD, NKeys: 3, Init: []int{1, 1, 0}, Table: TChain2, Threads: [][]MIn{{on(del, 0), on(ins, 2)}, {rd}}})
+			}
+		}
+	}
 	// F4b: the insert appends a new bucket to a full chain while others read / write / traverse that chain
 	for _, ins := range insertOps {
 		for _, b := range append(append([]MIn{}, allOps...), opRange) {
